@@ -4,12 +4,15 @@
 # Writes seeded/MATRIX.md. A row "MISSED" means the property's own check no longer detects that change.
 cd "$(cd "$(dirname "$0")" && pwd)"
 out=seeded/MATRIX.md
-echo "| seeded change | breaks | own check | other checks that also report it |" > $out.tmp
+echo "Every stored change applied to a throw-away worktree of /repo ($(git -C /repo rev-parse --short HEAD)) and run through the quick check of the property it breaks (checks as of /verif $(git rev-parse --short HEAD 2>/dev/null || echo snapshot), VERIF_SEED=1)." > $out.tmp
+echo >> $out.tmp
+echo "| seeded change | breaks | own check | other checks that also report it |" >> $out.tmp
 echo "|---|---|---|---|" >> $out.tmp
 for d in seeded/*/; do
   id=$(basename $d); [ -f $d/meta.json ] || continue
   prop=$(python3 -c "import json;print(json.load(open('$d/meta.json'))['breaks_property'])")
   others=$(python3 -c "import json;m=json.load(open('$d/meta.json'));print(' '.join(c for c in m['caught_by'] if c!=m['breaks_property']))")
+  [ -n "${OWN_ONLY:-}" ] && others=""
   res=$(./seedcheck.sh $(pwd)/$d/patch.diff $prop $others 2>&1)
   own=$(echo "$res" | grep "^$prop " | grep -q "exit=1" && echo "caught" || echo "MISSED")
   oth=""
